@@ -226,6 +226,8 @@ func (u *CacheOnReadFs) OpenFile(name string, flag int, perm os.FileMode) (File,
 		if err := u.copyFileToLayer(name, flag, perm); err != nil {
 			return nil, err
 		}
+		// the call above has created the file when O_CREATE|O_EXCL asked for it
+		flag &^= os.O_EXCL
 	}
 	if flag&(os.O_WRONLY|syscall.O_RDWR|os.O_APPEND|os.O_CREATE|os.O_TRUNC) != 0 {
 		bfi, err := u.base.OpenFile(name, flag, perm)
